@@ -49,7 +49,10 @@ class Tally:
             else:
                 ent[0] += n
         for k, v in other.counts.items():
-            self.counts[k] = self.counts.get(k, 0) + v
+            if k.endswith("_max"):
+                self.counts[k] = max(self.counts.get(k, 0), v)
+            else:
+                self.counts[k] = self.counts.get(k, 0) + v
         for s in other.samples:
             self.sample(s, cap=8)
         self.outcomes |= other.outcomes
@@ -195,3 +198,46 @@ def private_xdg(tag=""):
     if "ofxtools.config" in sys.modules:
         importlib.reload(sys.modules["ofxtools.config"])
     return mine
+
+
+def in_fork(fn):
+    """run fn() in a forked child and return its (picklable) result; a failure inside the child is a HarnessError"""
+    import pickle
+
+    r, w = os.pipe()
+    pid = os.fork()
+    if pid == 0:
+        try:
+            os.close(r)
+            try:
+                out = ("ok", fn())
+            except BaseException as e:
+                out = ("err", f"{type(e).__name__}: {e}")
+            with os.fdopen(w, "wb") as f:
+                pickle.dump(out, f)
+        finally:
+            os._exit(0)
+    os.close(w)
+    with os.fdopen(r, "rb") as f:
+        data = f.read()
+    os.waitpid(pid, 0)
+    if not data:
+        raise HarnessError("forked child died without a result")
+    kind, val = pickle.loads(data)
+    if kind == "err":
+        raise HarnessError("forked child failed: " + val)
+    return val
+
+
+def touch_bases(cls):
+    """read the introspection properties of every base class of a model class, root first - what dir()/documentation
+    tools or a user looking at a base class do; what a class does must not depend on whether that happened before"""
+    from ofxtools.models.base import Aggregate
+
+    for base in reversed(cls.__mro__):
+        if isinstance(base, type) and issubclass(base, Aggregate):
+            for prop in ("spec", "spec_no_listaggregates", "elements", "subaggregates", "unsupported", "listaggregates", "listelements"):
+                try:
+                    getattr(base, prop)
+                except Exception:
+                    pass
